@@ -174,9 +174,13 @@ def batch_case(out: Outcome, rng, cls, protocol: int) -> None:
             except Exception as e:  # noqa: BLE001
                 out.violation(f"{cls.__name__}: save/load raised {type(e).__name__}: {e}", rep)
                 return
-            if type(loaded) is not type(det) or snap(loaded) != snap(det):
-                out.violation(f"{cls.__name__}: loaded {stage} detector differs from the original (type/state)", rep)
+            if type(loaded) is not type(det) or dets.public_reads(loaded) != dets.public_reads(det):
+                out.violation(f"{cls.__name__}: loaded {stage} detector differs from the original (type / what its public attributes read)", rep)
                 return
+            if snap(loaded) != snap(det):
+                # a PRIVATE attribute differs (derived data left out of the pickle and recomputed on first use ...): not a violation by itself - the continuation
+                # below (results, logs, reference) decides whether anything observable was lost
+                out.count("private_state_differs_after_load")
             if cb and loaded.callbacks[0].detector is not loaded:
                 out.violation(f"{cls.__name__}: the loaded callback no longer refers to the loaded detector", rep)
                 return
@@ -206,6 +210,10 @@ def batch_case(out: Outcome, rng, cls, protocol: int) -> None:
         if type(used) is not type(det) or (used.X_ref is None) != (det.X_ref is None):
             out.violation(f"{cls.__name__}: a detector saved after compare calls is loaded in a different state", rep)
             return
+        if cb and dets.canon_public(getattr(used.callbacks[0], "logs", None)) != dets.canon_public(getattr(det.callbacks[0], "logs", None)):
+            # what a callback that has RUN holds (the outcome of the permutation test: statistics, p-value) is part of what is saved
+            out.violation(f"{cls.__name__}: the logs of its {type(cb[0]).__name__} (which ran before the save) are not what the loaded callback holds", rep)
+            return
         if det.X_ref is not None and not (cls is BWSTest):
             try:
                 a, b = det.compare(X=t2)[0], used.compare(X=t2)[0]
@@ -233,9 +241,11 @@ def streaming_case(out: Outcome, rng, protocol: int) -> None:
         except Exception as e:  # noqa: BLE001
             out.violation(f"{name}: save/load raised {type(e).__name__}: {e}", rep)
             continue
-        if snap(loaded) != snap(det) or type(loaded) is not type(det):
-            out.violation(f"{name}: loaded detector differs from the original (type/state)", rep)
+        if type(loaded) is not type(det) or dets.public_reads(loaded) != dets.public_reads(det):
+            out.violation(f"{name}: loaded detector differs from the original (type / what its public attributes read)", rep)
             continue
+        if snap(loaded) != snap(det):
+            out.count("private_state_differs_after_load")        # the continuation below decides
         for t, v in enumerate(vals[k:]):
             a, _ = det.update(value=v)
             b, _ = loaded.update(value=v)
